@@ -56,10 +56,24 @@ def bounds(tier):
 
 # ------------------------------------------------------------------ text
 
-def make_text(L):
+TEXT_CLASSES = ['(', ')', '"', '|', ';', 'ws', 'other']
+
+
+def _in_class(c, k):
+    if k == 'ws':
+        return c == ' ' or c == '\t' or c == '\n' or c == '\r'
+    if k == 'other':
+        return not (c == '(' or c == ')' or c == '"' or c == '|' or c == ';'
+                    or c == ' ' or c == '\t' or c == '\n' or c == '\r')
+    return c == k
+
+
+def make_text(L, first=None):
     def h(text: str):
         from ddsmt import nodeio
         assume(len(text) == L)
+        if first is not None:
+            assume(_in_class(text[0], first))
         for n in nodeio.parse_smtlib(text):
             pass
     return h
@@ -806,7 +820,14 @@ def partitions(tier):
                           'run': make_e2e(sc, st, tier), 'budget_s': bud,
                           'bounds': {'script': E2E_SCRIPTS[sc],
                                      'strategy': st, 'mutators': 'all'}})
-    for L in range(0, b['text_len'] + 1):
+    for L in range(5, b['text_len'] + 1):
+        # long texts: one partition per lexical class of the first character
+        for k, cl in enumerate(TEXT_CLASSES):
+            parts.append({'name': f'text_len{L}_c{k}',
+                          'fn': make_text(L, cl), 'setup': _setup_s,
+                          'budget_s': bud,
+                          'bounds': {'len': L, 'first_char_class': cl}})
+    for L in range(0, min(b['text_len'], 4) + 1):
         parts.append({'name': f'text_len{L}', 'fn': make_text(L),
                       'setup': _setup_s, 'budget_s': bud,
                       'bounds': {'len': L}})
